@@ -30,7 +30,13 @@ def respell(rng, text):
             # definitions that share an attribute, and/or repeat a string attribute in an escaped spelling ("k" == "\6B")
             attrs = re.findall(r'"[^"]*"(?:="[^"]*")?|\S+', am.group(2))
             k = rng.random()
-            if k < 0.5 and attrs:
+            strs0 = [a for a in attrs if a.startswith('"')]
+            if k < 0.3 and strs0:
+                # the same attribute in a non-canonical SPELLING (no repeat): other groups may hold the canonical spelling of it
+                a = rng.choice(strs0)
+                attrs[attrs.index(a)] = re.sub(r'"([^"\\])', lambda m: '"\\%02X' % ord(m.group(1)), a, count=1)
+                l = "attributes #%s = { %s }" % (am.group(1), " ".join(attrs))
+            elif k < 0.6 and attrs:
                 cut = rng.randint(1, len(attrs))
                 out.append("attributes #%s = { %s }" % (am.group(1), " ".join(attrs[:cut])))
                 l = "attributes #%s = { %s }" % (am.group(1), " ".join([rng.choice(attrs[:cut])] + attrs[cut:]))
